@@ -2081,7 +2081,16 @@ impl Monitor for GroupA {
                 if rng.chance(1, 3) && guarded(|| Glob::new(&other2).is_ok()) == Some(true) {
                     exprs.push(&other2);
                 }
+                let mut combos: Vec<Vec<&str>> = Vec::new();
                 if exprs.len() > 1 || rng.chance(1, 4) {
+                    combos.push(exprs);
+                }
+                for pinned in case::PINNED_ANY {
+                    if pinned[0] == case.expr {
+                        combos.push(pinned.to_vec());
+                    }
+                }
+                for exprs in combos {
                     if let Some(any) = guarded(|| wax::any(exprs.iter().copied()).ok()).flatten() {
                         rpt.bucket("pattern:any");
                         let mut paths = case.paths.clone();
